@@ -13,3 +13,6 @@ func (p *PiecePicker) EdgeFlags() (head, tail []bool) {
 
 // Endgame returns the end-game flag (used only to localise a difference).
 func (p *PiecePicker) Endgame() bool { return p.endgame }
+
+// MaxWebseedPieces returns the gap length limit computed at construction.
+func (p *PiecePicker) MaxWebseedPieces() int { return p.maxWebseedPieces }
